@@ -23,9 +23,10 @@ def compose(per_statement, provider_md):
     owned = set()
     for ps in per_statement:
         f = ps.get("facts") or {}
-        for a, b in f.get("col_edges", []):
+        # identity of a sub-query / CTE owner = printed name + digest of its text (two CTEs called 'base' in two statements are two owners)
+        for a, b in f.get("col_edges_rich") or f.get("col_edges", []):
             edges.add((a, b))
-        owned.update(f.get("owned_columns", []))
+        owned.update(f.get("owned_columns_rich") or f.get("owned_columns", []))
         # RENAME: the columns known so far move with their table
         for old, new in f.get("rename_in_order") or f.get("rename") or []:
             def mv(c):
@@ -66,7 +67,10 @@ def compose(per_statement, provider_md):
         for n in seen:
             if n != r and not succ.get(n) and c02.is_table_owned(n) is True:
                 pairs.add((r, n))
-    return sorted(map(list, pairs))
+    return sorted(map(list, {(_RICH.sub("", a), _RICH.sub("", b)) for a, b in pairs}))
+
+
+_RICH = __import__("re").compile(r"@[0-9a-f]{6}(?=[.|>])")
 
 
 def chains(tier, rnd):
@@ -74,7 +78,7 @@ def chains(tier, rnd):
     out = []
     n = 260 if tier == "quick" else 4000
     for i in range(n):
-        shape = rnd.choice(["linear2", "linear3", "linear4", "diamond", "fanin", "rewrite", "star_unknown", "publish_then_reload"])
+        shape = rnd.choice(["linear2", "linear3", "linear4", "diamond", "fanin", "rewrite", "star_unknown", "publish_then_reload", "same_cte_name"])
         tables = {}  # table -> {col: set of (base table, base col)}
         stmts = []
         expect_star = []  # (statement index, target, source table, expected expanded columns)
@@ -139,6 +143,18 @@ def chains(tier, rnd):
             tables["db.m1"] = {"*": {("ext.events", "*")}}
             stmts.append(rnd.choice(["insert into db.m1 select * from ext.events", "create table db.m1 as select * from ext.events"]))
             derive("db.fin", "db.m1", "star")
+        elif shape == "same_cte_name":
+            # every statement calls its CTE (or derived table) 'base': the two are different relations with different columns
+            c_a, c_b = cols1[0], cols1[1]
+            form = rnd.choice(["cte", "derived"])
+            if form == "cte":
+                stmts.append(f"create table db.m1 as with base as (select x.{c_a}, x.{c_b} as amount from db.s1 x) select {c_a}, amount from base")
+                stmts.append("insert into db.fin with base as (select y.d1 from db.s2 y) select amount, d1 from db.m1 join base on 1 = 1")
+            else:
+                stmts.append(f"create table db.m1 as select {c_a}, amount from (select x.{c_a}, x.{c_b} as amount from db.s1 x) base")
+                stmts.append("insert into db.fin select amount, d1 from db.m1 join (select y.d1 from db.s2 y) base on 1 = 1")
+            tables["db.m1"] = {c_a: {("db.s1", c_a)}, "amount": {("db.s1", c_b)}}
+            tables["db.fin"] = {"amount": {("db.s1", c_b)}, "d1": {("db.s2", "d1")}}
         elif shape == "publish_then_reload":
             # a table is read by star while nothing is known about it yet, and (re)loaded by two statements afterwards
             tables["db.fin"] = {"*": {("db.m1", "*")}}
@@ -192,7 +208,7 @@ def run(tier):
                 # (only for a table the script creates with CREATE TABLE AS / CREATE VIEW: an INSERT without column list into a table the provider
                 # knows is legitimately named by the catalog's columns, C13)
                 # (nor for a table rebuilt as a star copy of unknown columns: what it then consists of is not decided by the script)
-                if g["shape"] in ("same_unresolved_name_two_scopes", "rewrite", "star_unknown", "publish_then_reload") or "db.m1" not in g["tables"]:
+                if g["shape"] in ("same_unresolved_name_two_scopes", "rewrite", "star_unknown", "publish_then_reload", "same_cte_name") or "db.m1" not in g["tables"]:
                     continue
                 c["sql"] = c["sql"].replace("insert into db.m1 select x.", "create table db.m1 as select x.", 1)
                 c.update({"metadata": dict(MD, **{"db.m1": ["old1", "old2", "c1"]}), "provider": "dummy"})
